@@ -293,7 +293,8 @@ class NodeEnv:
             if p.status == 'pending':
                 if self.payee_releases:
                     out.append(('part%d->complete' % p.pid, self._resolve(p.pid, 'complete')))
-                out.append(('part%d->failed' % p.pid, self._resolve(p.pid, 'failed')))
+                if getattr(self, 'parts_can_fail', True):
+                    out.append(('part%d->failed' % p.pid, self._resolve(p.pid, 'failed')))
         return out
 
     def _lin(self, cid):
